@@ -19,8 +19,8 @@ var propTable = map[string]propMeta{
 		NotCovered: "the sen front-ends are not under contract (DESIGN.md); gen.Parser (parseBuffer, add, Parse, ParseReader) is covered by the oj.Parser contract restated over gen.Node; oj.Tokenizer (tokenizeBuffer, Parse, Load) is covered like the Validator plus number-buffer safety; oj.Parser is covered for acceptance, positions and build-stack safety (parseBuffer simulation PRel, Parse and ParseReader entry points, option-less calls); the spec automaton is validated against encoding/json, not proved"},
 	"C03": {Level: "other", Explanation: "Chunking independence of oj.Parser.ParseReader: the reader loop is verified against a ghost stream R delivered in arbitrary pieces by an arbitrary io.Reader (assumed: 0 <= n <= len(p)); the loop invariant relates the Parser after every buffer to the specification automaton after the same prefix of the stream (the relation proved for parseBuffer), so err == nil implies the specification accepts the delivered stream and a ParseError carries the specification's first-error position, neither depending on where the buffers were cut. oj.Parser.Parse has the same postcondition over the same specification, which is the agreement point between the []byte and the reader front-end.",
 		NotCovered: "value trees (only acceptance, positions and the build-stack shape are specified, not the payload of strings and numbers), the sen front-ends, multi-document mode of the parsers; oj.Tokenizer.Load and gen.Parser.ParseReader are covered like oj.Parser.ParseReader; known finding: a BOM split over short first reads"},
-	"C12": {Level: "other", Explanation: "Totality of script evaluation: jp.evalStack (every operator x operand-kind cell of the prefix-notation evaluator) and jp.normalize are executed symbolically for arbitrary operand values; every implicit runtime-fault obligation is discharged, among them '== on interface values whose dynamic type is not comparable' (the obligation that failed before fix e7804e5), index and slice bounds of the operand window, type assertions, division by zero.",
-		NotCovered: "the truth value of each cell (only absence of faults is specified), evalWithRoot/expandStack (sub-path resolution and multi-value expansion), parsing and printing of scripts; same() is trusted (reflect)"},
+	"C12": {Level: "other", Explanation: "Filter operators: (1) totality — jp.evalStack (every operator x operand-kind cell of the prefix-notation evaluator) and jp.normalize are executed symbolically for arbitrary operand values and every implicit runtime-fault obligation is discharged, among them '== on interface values whose dynamic type is not comparable' (the obligation that failed before fix e7804e5); (2) typed comparison semantics — statement contracts on the case clauses of == != < > <= >= || && ! state the truth value written to sstack[i] as a function of the two operands for all operand kinds (predicates CmpEq/CmpLt/CmpLe: int64 and float64 compare by value after converting the integer, strings lexically, every other pairing is false; != is the complement of == for every pair of operands); the entry assumption of each clause (0 <= i < len(sstack)) is an obligation of the whole-function pass. Float operations are uninterpreted functions shared by code and contract (f64_of_int, f64_lt, f64_le, f64_eq), so the contract pins which conversion and which comparison is performed, not IEEE arithmetic.",
+		NotCovered: "evalWithRoot/expandStack (sub-path resolution and multi-value expansion), arithmetic and the function-like operators (in, empty, has, exists, length, count, match, search) are covered for faults only, parsing and printing of scripts; same() is trusted (reflect) with an assumed contract (deterministic, agrees with == on scalars)"},
 	"C19": {Level: "other", Explanation: "Totality of alt.Diff/Compare/Match: the difference recursion diff, Match and their helpers (asInt, asFloat, ignoreIndex, ignoreKey) are executed symbolically with thin contracts for arbitrary values on both sides and arbitrary ignore paths (recursive calls by contract); every implicit runtime-fault obligation (index, slice bounds, nil map, type assertion) is discharged. The interface-header comparison through unsafe.Pointer is modelled as a function of the interface value (A-UNSAFE).",
 		NotCovered: "soundness and completeness of the reported paths (only absence of faults is specified), gen data, time tolerance"},
 	"C09": {Level: "other", Explanation: "Positions: VRel carries line == spec line and noff == offset of last newline; every error return of validateBuffer is proved to carry the line/column of the first byte on which spec.Step enters Err, or of the end of input for incomplete text (predicate VErr); Validate lifts this to PosOK over the whole text via ErrAbsorbing.",
